@@ -36,6 +36,7 @@ func runC13(l *core.Ledger) {
 	l.Rule("C13-D3", "direction table: requestType ↦ Input(), responseType ↦ Output(), default ↦ error; server decodes into newMessage(requestType), client into newMessage(responseType); who-may-set Message.msgType = newMessage")
 	l.Rule("C13-D4", "handler status transport (C07-E5 re-run)")
 	l.Rule("C13-D5", "Codec.Marshal and Codec.Unmarshal return an error for unsupported argument types")
+	l.Rule("C13-D8", "a decode that can report success has stored a freshly created message of the method's type into msg.Message (never nil on a success return)")
 	l.Rule("C13-D7", "decoding overwrites: the codec's unmarshal options do not set Merge, or every RecvMsg target is a newMessage result built between two receives")
 	l.Rule("C13-D6", "delivery of a message-carrying response is dominated by the match edge of a comparison of the reply's method with the method recorded in the router at registration")
 
@@ -140,6 +141,7 @@ func runC13(l *core.Ledger) {
 	c13D5(l, r)
 	c13D6(l, r)
 	c13D7(l, r)
+	c13D8(l, r, gum)
 }
 
 // c13SliceTable verifies the side conditions of the b[mdLen:] entry.
@@ -651,4 +653,70 @@ func c13D7(l *core.Ledger, r *rt) {
 	}
 	l.Check(len(mergeSites) == 0 || len(stale) == 0, "C13-D7", "decode-overwrites", pos, fmt.Sprintf("Merge set at %d site(s); reused decode targets: %d", len(mergeSites), len(stale)),
 		fmt.Sprintf("the codec's unmarshal options set Merge and a decode target is reused across receives (%v): metadata of an earlier frame (e.g. a handler's error status) survives into later frames, so the decoded message is not equal to the encoded one", stale))
+}
+
+// c13D8: a decode that reports success has produced a message. The stubs and
+// the server loop use Message without a nil test (the type of a successfully
+// decoded frame is the method's message type by D3), so every return of
+// gorumsUnmarshal whose error can be nil must be dominated by a store of a
+// freshly created message into msg.Message, with no store of nil in between.
+func c13D8(l *core.Ledger, r *rt, gum *ssa.Function) {
+	if len(gum.Params) < 3 {
+		return
+	}
+	msg := gum.Params[2]
+	var nonNil, nilStores []*ssa.Store
+	sx.AllInstrs(gum, func(_ sx.Node, in ssa.Instruction) {
+		st, ok := in.(*ssa.Store)
+		if !ok {
+			return
+		}
+		base, ok := fieldAddrOf(st.Addr, "Message")
+		if !ok || !sx.All(sx.Origins(base), sx.IsParam(msg)) {
+			return
+		}
+		if k, isC := st.Val.(*ssa.Const); isC && k.IsNil() {
+			nilStores = append(nilStores, st)
+		} else {
+			nonNil = append(nonNil, st)
+		}
+	})
+	isNonNilStore := func(n sx.Node) bool {
+		for _, s := range nonNil {
+			if n.Instr() == ssa.Instruction(s) {
+				return true
+			}
+		}
+		return false
+	}
+	n := 0
+	sx.AllInstrs(gum, func(nd sx.Node, in ssa.Instruction) {
+		ret, ok := in.(*ssa.Return)
+		if !ok || len(ret.Results) != 1 {
+			return
+		}
+		if sx.KnownNonNil(ret.Results[0], nd.B) {
+			return // an error return
+		}
+		if nn, _ := errNonNilByConstruction(gum, ret.Results[0], nd); nn {
+			return
+		}
+		n++
+		key := fmt.Sprintf("gorums.(Codec).gorumsUnmarshal/success-return#%d", n)
+		dom := false
+		for _, s := range nonNil {
+			if sx.InstrDominates(gum, s, nd) {
+				dom = true
+			}
+		}
+		clean := true
+		for _, ns := range nilStores {
+			if _, must := sx.MustPassThrough(sx.NodeOf(ns), isNonNilStore, func(x sx.Node) bool { return x == nd }); !must {
+				clean = false
+			}
+		}
+		l.Check(dom && clean, "C13-D8", key, ret.Pos(), "a decode that can report success has stored a fresh message",
+			fmt.Sprintf("gorumsUnmarshal can return without an error although msg.Message holds no message (set on every path: %v; not reset to nil afterwards: %v): the frame is delivered as a success with a nil message, and the first unchecked use of it - the generated stubs' type assertion, the handlers' request cast - panics the receiving process", dom, clean))
+	})
+	l.Floor("C13-D8", n, 1, "returns of gorumsUnmarshal that can report success")
 }
